@@ -5,7 +5,8 @@ Statements about the model `MgpuModel/C09_PCP.lean`: the command processor of `C
 dispatchers place with `dispatching.partitionAlgorithm` on the one shared CU pool (tied to the real
 `cp.CommandProcessor` + real `partitionAlgorithm` by the `c09 cp alg=partition …` correspondence,
 `harness/c09_pcp.go`). All theorems hold for **every** number of dispatchers, **every** pool of CUs
-satisfying the resource invariant (0 CUs included: the first launch ends the run with `fault:div0`),
+satisfying the resource invariant (0 CUs included: the first launch is rejected with `fault:oversize` by the
+fit check of `StartDispatching`, an empty-grid launch ends the run with `fault:div0`),
 **every** sequence of environment moves (ticks, launches, completion messages with any id lists in any
 order, port back-pressure). -/
 namespace C09
@@ -195,7 +196,10 @@ example : let cp := prun (mkPCP pdemoCfg 1 [pdemoCU, pdemoCU0]) pstealOps
     cp.log.reverse.map pshowEv = [(0, 0, 3, 0), (1, 0, 3, 1), (2, 0, 3, 2), (3, 0, 3, 3), (99, 99, 3, 99)] := by
   decide
 
-/-- no CU: the first launch taken divides by zero in `StartNewKernel` -/
-example : (prun (mkPCP pdemoCfg 8 []) [.launch ⟨0, 64, 64, 16, 4, 0⟩, .tick]).fault = some "div0" := by decide
+/-- no CU: no work-group fits, the first launch taken is rejected by the fit check of `StartDispatching`
+    (repair 91eb1bb3) before `StartNewKernel` could divide by the number of CUs; only a launch with an
+    empty grid (no first work-group, not checked) still reaches the division -/
+example : (prun (mkPCP pdemoCfg 8 []) [.launch ⟨0, 64, 64, 16, 4, 0⟩, .tick]).fault = some "oversize" ∧
+    (prun (mkPCP pdemoCfg 8 []) [.launch ⟨0, 0, 64, 16, 4, 0⟩, .tick]).fault = some "div0" := by decide
 
 end C09
